@@ -33,6 +33,13 @@ pub struct Scn {
     /// explicit orders (set by the minimiser); None = all n! (n <= 5) or 64 seeded ones
     #[serde(default)]
     pub orders: Option<Vec<Vec<usize>>>,
+    /// all n! orders are run for n up to this bound (5 quick, 6 thorough)
+    #[serde(default = "five")]
+    pub exhaustive_upto: usize,
+}
+
+fn five() -> usize {
+    5
 }
 
 fn n(rng: &mut Rng, lo: i64, hi: i64) -> i64 {
@@ -297,7 +304,7 @@ pub fn orders_of(scn: &Scn) -> (Vec<Vec<usize>>, bool) {
         }
         return (v, false);
     }
-    if nn <= 5 {
+    if nn <= scn.exhaustive_upto {
         (perms(nn), true)
     } else {
         let mut rng = Rng::sub(scn.perm_seed, "orders");
@@ -420,7 +427,7 @@ impl Engine for C10 {
         }
     }
 
-    fn generate(&self, seed: u64, index: u64, _tier: Tier, _env: &WorkerEnv) -> Value {
+    fn generate(&self, seed: u64, index: u64, tier: Tier, _env: &WorkerEnv) -> Value {
         let rs = rng::run_seed(seed, "C10", index);
         let mut w = Rng::sub(rs, "workload");
         let nn = match w.below(10) {
@@ -567,6 +574,7 @@ impl Engine for C10 {
             unsat,
             perm_seed: w.next_u64(),
             orders: None,
+            exhaustive_upto: if tier == Tier::Thorough { 6 } else { 5 },
         })
         .unwrap()
     }
@@ -766,7 +774,7 @@ impl Engine for C10 {
     }
 
     fn rule(&self) -> &'static str {
-        "run = one reference DAG over n sibling elements (n in 2..8) executed under every sibling order (all n! for n <= 5, identity + reversal + 62 seeded orders above); every 5th DAG is unsatisfiable (unknown id, 2-/3-cycle, self reference, target without bounding box); evaluations = transforms; distinct by (node kinds, dependency edges) fingerprint; non-trivial = at least one order made the retry work-list re-run an element (observed through the verif hook)"
+        "run = one reference DAG over n sibling elements (n in 2..8) executed under every sibling order (all n! for n <= 5, in the thorough tier n <= 6; identity + reversal + 62 seeded orders above); every 5th DAG is unsatisfiable (unknown id, 2-/3-cycle, self reference, target without bounding box); evaluations = transforms; distinct by (node kinds, dependency edges) fingerprint; non-trivial = at least one order made the retry work-list re-run an element (observed through the verif hook)"
     }
     fn components_real(&self) -> Vec<&'static str> {
         vec!["svgdx library (transform_stream) incl. the retry work-list process_tags", "quick-xml"]
